@@ -1,6 +1,7 @@
 package checks
 
 import (
+	"fmt"
 	"os"
 	"path/filepath"
 	"testing"
@@ -10,6 +11,7 @@ import (
 	"pgregory.net/rapid"
 	. "verifharness/evid"
 	"verifharness/gen"
+	"verifharness/specdec"
 )
 
 type c01Case struct {
@@ -17,6 +19,8 @@ type c01Case struct {
 	ViaFile bool          `json:"via_file,omitempty"`
 	// Bulk: the refs are generated programmatically (restart-cap shape)
 	Bulk *gen.Bulk `json:"bulk,omitempty"`
+	// NoisyBig: big blocks filled by one incompressible log record each (class statistics only)
+	NoisyBig bool `json:"noisy_big,omitempty"`
 }
 
 // drawBulk: one huge block with more records than the 65535 restart points a block can hold.
@@ -54,6 +58,34 @@ func drawBig(t *rapid.T) (gen.TableSpec, *gen.Bulk) {
 	return gen.TableSpec{Cfg: cfg, Min: 2, Max: 2}, b
 }
 
+// drawNoisyBig: log blocks of 17 KiB .. 256 KiB holding one incompressible record each that
+// fills the block to within 0..40 bytes: the deflated form of such a block is longer than the
+// block (5 bytes per 16 KiB of stored data plus the zlib envelope), more data follows it, and
+// the reader has to fetch the excess.
+func drawNoisyBig(t *rapid.T) gen.TableSpec {
+	bs := rapid.SampledFrom([]int{17000, 20000, 32768, 33000, 40000, 49152, 65536, 70000, 100000, 131072, 262144}).Draw(t, "noisyBS")
+	cfg := gen.Cfg{BlockSize: uint32(bs), RestartInterval: rapid.SampledFrom([]int{0, 1, 16}).Draw(t, "noisyRI"),
+		Unaligned: rapid.IntRange(0, 3).Draw(t, "noisyUnaligned") == 3, Hash: rapid.IntRange(0, 2).Draw(t, "noisyHash"),
+		SkipIndexObjects: rapid.Bool().Draw(t, "noisySkip"), Exact: rapid.Bool().Draw(t, "noisyExact")}
+	spec := gen.TableSpec{Cfg: cfg, Min: 3, Max: 9}
+	hs := cfg.HashSize()
+	for i := 0; i < rapid.IntRange(0, 3).Draw(t, "noisyRefs"); i++ {
+		spec.Refs = append(spec.Refs, gen.Ref{Name: Str(fmt.Sprintf("refs/heads/b%d", i)), Idx: 4, Kind: gen.KVal, Val: bytesOf(byte(i+1), hs)})
+	}
+	n := rapid.IntRange(1, 3).Draw(t, "noisyLogs")
+	for i := 0; i < n; i++ {
+		name := fmt.Sprintf("refs/heads/n%d", i)
+		if l, ok := gen.DrawBigFillingLog(t, name, uint64(rapid.IntRange(3, 9).Draw(t, "noisyIdx")), hs, bs, cfg.Exact, rapid.IntRange(0, 40).Draw(t, "noisySlack")); ok {
+			spec.Logs = append(spec.Logs, l)
+		}
+		if rapid.Bool().Draw(t, "noisySmallBetween") {
+			spec.Logs = append(spec.Logs, gen.Log{Name: Str(name + "x"), Idx: 5, Old: bytesOf(1, hs), New: bytesOf(2, hs), Who: "w", Email: "e", Time: 9, Msg: "m\n"})
+		}
+	}
+	spec.Logs = gen.SortLogs(spec.Logs)
+	return spec
+}
+
 func genC01(t *rapid.T) c01Case {
 	c := c01Case{}
 	c.Table = gen.DrawTable(t, gen.TableOpts{MaxRefs: 150, MaxLogs: 40, SmallBlocks: rapid.Bool().Draw(t, "small")})
@@ -63,6 +95,10 @@ func genC01(t *rapid.T) c01Case {
 	}
 	if rapid.IntRange(0, 49).Draw(t, "big") == 23 {
 		c.Table, c.Bulk = drawBig(t)
+	}
+	if rapid.IntRange(0, 59).Draw(t, "noisyBig") == 31 {
+		c.Table, c.Bulk = drawNoisyBig(t), nil
+		c.NoisyBig = true
 	}
 	return c
 }
@@ -84,6 +120,15 @@ func propC01(c c01Case, o *Obs) error {
 		return Failf("C01/write-error", "writer refused an in-domain table: %v", err)
 	}
 	ShapeClasses(o, spec, st)
+	if c.NoisyBig {
+		o.Class("big-incompressible-log-blocks")
+		for _, b := range specdec.Decode(data, spec.Cfg.HashSize(), !spec.Cfg.Unaligned).Blocks {
+			if b.Type == 'g' && b.Occupied > uint64(spec.Cfg.EffBlockSize()) {
+				o.Class("big-log-stream-longer-than-block")
+				break
+			}
+		}
+	}
 	var src reftable.BlockSource = &reftable.ByteBlockSource{Source: data}
 	if c.ViaFile {
 		d := ScratchDir()
